@@ -340,7 +340,16 @@ def mat(v):
         return iter([mat(x) for x in v[1]])  # a lazy, one-shot sequence without len()
     if t == "l":
         return [mat(x) for x in v[1]]
+    if t == "x":
+        return SPECIALS[v[1]]
     raise ValueError(f"bad value descriptor {v!r}")
+
+
+#: ["x", name]: singletons and classes that code is tempted to use as in-band markers ("nothing there", "done") -
+#: as DATA they are items like any other
+SPECIALS = {"StopAsyncIteration": StopAsyncIteration, "StopIteration": StopIteration, "NotImplemented": NotImplemented,
+            "Ellipsis": Ellipsis, "GeneratorExit": GeneratorExit, "object": object, "type": type,
+            "KeyError": KeyError, "IndexError": IndexError}
 
 
 def mats(vs):
@@ -385,6 +394,9 @@ def sig(o):
         return ("L", o.key, _uid(o.uid))
     if o is None:
         return ("n",)
+    for name_, special in SPECIALS.items():
+        if o is special:
+            return ("x", name_)
     tp = type(o)
     if tp in (bool, int, float, str, complex, Fraction, bytes):
         return (tp.__name__, repr(o))
